@@ -957,3 +957,5 @@ def check(repo, rep, tier):
     rep.rule('R7.14', 'the Jigg span categories spell every feature an atom has (base[f=true]); the base alone only for an atom without one')
     from .c15 import r_jigg_category
     r_jigg_category(repo, rep, 'R7.14')
+    from .c20 import r_ja_fields_nonempty
+    r_ja_fields_nonempty(repo, rep, 'R7.4')       # a leaf record of the ja format with an empty field does not decode
